@@ -244,7 +244,7 @@ def container_models(I, st, caller, func, args, argtys, dest_ty):
                     work.append((o.state, i + 1, conds + [o.value]))
         return outs
     # ---- indexing ---------------------------------------------------------------------------------------------------
-    m = re.match(r"^<(Vec<.*>|\[.*\]) as Index<usize>>::index$", f)
+    m = re.match(r"^<(Vec<.*>|\[.*\]) as Index(Mut)?<usize>>::index(_mut)?$", f)
     if m:
         seq, ref = seq_of(I, st, args[0])
         iv = z3.simplify(args[1])
@@ -280,4 +280,183 @@ def container_models(I, st, caller, func, args, argtys, dest_ty):
         hs = deref_all(I, st, args[0])
         n = hs_len(list(hs.fields))
         return ret(st, n if f.endswith("len") else n == 0)
+    return None
+
+
+# ---------------------------------------------------------------------------------------------------------------------
+# maps and sets with *symbolic keys*: a lookup forks over "which stored key equals the probe" (keys pairwise distinct by
+# construction); key equality of struct keys is the type's own PartialEq body from the dump; BTreeMap iteration forks over
+# the feasible key orders.  Hash is assumed consistent with Eq (std's contract for HashMap / HashSet).
+def key_eq(I, st, caller, keyty, a, b):
+    """[(state, z3 Bool)]: a == b for map keys (scalars directly, structs through their PartialEq)"""
+    va, vb = deref_all(I, st, a), deref_all(I, st, b)
+    if z3.is_expr(va) and z3.is_expr(vb):
+        return [(st, va == vb)]
+    if isinstance(va, Abs) and isinstance(vb, Abs):
+        return [(st, va.term == vb.term)]
+    ty = keyty.lstrip("&").strip()
+    I.frame_counter += 1
+    fr = I.frame_counter
+    st.mem[(fr, 0)] = va
+    st.mem[(fr, 1)] = vb
+    outs = I.dispatch_call(st, caller, "<%s as PartialEq>::eq" % ty, [Ref(fr, 0, ()), Ref(fr, 1, ())], ["&" + ty, "&" + ty], "bool")
+    res = []
+    for o in outs:
+        if o.kind != "return":
+            raise Unencodable("PartialEq::eq of a map key did not return")
+        res.append((o.state, o.value))
+    return res
+
+
+def lookup(I, st, caller, keyty, entries, probe):
+    """fork: [(state, index or None)]"""
+    work = [(st, 0, [])]
+    res = []
+    while work:
+        s, i, neqs = work.pop()
+        if i == len(entries):
+            res.append((s, None))
+            continue
+        k = entries[i].fields[0]
+        for s2, c in key_eq(I, s, caller, keyty, k, probe):
+            c = z3.simplify(c) if z3.is_expr(c) else z3.BoolVal(bool(c))
+            if I.feasible(s2, c):
+                s3 = s2.fork()
+                s3.assume(c)
+                res.append((s3, i))
+            nc = z3.simplify(z3.Not(c))
+            if I.feasible(s2, nc):
+                s4 = s2.fork()
+                s4.assume(nc)
+                work.append((s4, i + 1, neqs))
+    return res
+
+
+def map_type_args(f):
+    m = re.match(r"^(BTreeMap|HashMap|HashSet)::<(.*)>::(\w+)(::<.*>)?$", f)
+    if not m:
+        return None
+    from . import parser as P
+    ga = [x.strip() for x in P.split_top(m.group(2), ", ")]
+    return m.group(1), ga, m.group(3)
+
+
+def entry_ref(mapref, i, field):
+    return Ref(mapref.frame, mapref.local, tuple(mapref.projs) + (("constindex", i, 0), ("field", field, "")))
+
+
+def map_models(I, st, caller, func, args, argtys, dest_ty):
+    f = strip_std_paths(func)
+    mt = map_type_args(f)
+    if mt:
+        kind, ga, op = mt
+        keyty = ga[0]
+        mkind = kind.lower()
+        if op == "new":
+            return ret(st, Agg(mkind, None, ()))
+        if kind in ("BTreeMap", "HashMap") and op in ("get", "get_mut", "contains_key", "remove"):
+            mp = I.load(st, args[0])
+            outs = []
+            for s2, i in lookup(I, st.fork(), caller, keyty, list(mp.fields), args[1]):
+                if op == "contains_key":
+                    outs.append(Outcome("return", z3.BoolVal(i is not None), s2))
+                elif i is None:
+                    outs.append(Outcome("return", mk_option(False), s2))
+                elif op == "remove":
+                    ent = list(mp.fields)
+                    v = ent.pop(i).fields[1]
+                    I.store(s2, args[0], Agg(mkind, None, tuple(ent)))
+                    outs.append(Outcome("return", mk_option(True, v), s2))
+                else:
+                    outs.append(Outcome("return", mk_option(True, entry_ref(args[0], i, 1)), s2))
+            return outs
+        if kind in ("BTreeMap", "HashMap") and op == "insert":
+            mp = I.load(st, args[0])
+            outs = []
+            for s2, i in lookup(I, st.fork(), caller, keyty, list(mp.fields), args[1]):
+                ent = list(mp.fields)
+                if i is None:
+                    ent.append(Agg("tuple", None, (args[1], args[2])))
+                    I.store(s2, args[0], Agg(mkind, None, tuple(ent)))
+                    outs.append(Outcome("return", mk_option(False), s2))
+                else:
+                    old = ent[i].fields[1]
+                    ent[i] = Agg("tuple", None, (ent[i].fields[0], args[2]))
+                    I.store(s2, args[0], Agg(mkind, None, tuple(ent)))
+                    outs.append(Outcome("return", mk_option(True, old), s2))
+            return outs
+        if kind in ("BTreeMap", "HashMap") and op in ("len", "is_empty"):
+            mp = deref_all(I, st, args[0])
+            return ret(st, z3.IntVal(len(mp.fields)) if op == "len" else z3.BoolVal(len(mp.fields) == 0))
+        if kind == "BTreeMap" and op in ("values", "keys", "iter"):
+            mp = I.load(st, args[0])
+            n = len(mp.fields)
+            import itertools
+            outs = []
+            for perm in itertools.permutations(range(n)):
+                ks = [deref_all(I, st, mp.fields[p].fields[0]) for p in perm]
+                cond = z3.And([ks[j] < ks[j + 1] for j in range(n - 1)]) if n > 1 else z3.BoolVal(True)
+                if I.feasible(st, cond):
+                    s2 = st.fork()
+                    s2.assume(cond)
+                    if op == "values":
+                        items = [entry_ref(args[0], p, 1) for p in perm]
+                    elif op == "keys":
+                        items = [entry_ref(args[0], p, 0) for p in perm]
+                    else:
+                        items = [Agg("tuple", None, (entry_ref(args[0], p, 0), entry_ref(args[0], p, 1))) for p in perm]
+                    outs.append(Outcome("return", mk_iter(Agg("vec", None, tuple(items)), 0, "own"), s2))
+            return outs
+        if kind == "HashSet" and op in ("contains", "insert") and not (norm_type(keyty) in ("u64", "usize", "u32", "u8")):
+            hs = I.load(st, args[0])
+            ents = [Agg("tuple", None, (e, None)) for e in hs.fields]
+            outs = []
+            for s2, i in lookup(I, st.fork(), caller, keyty, ents, args[1]):
+                if op == "contains":
+                    outs.append(Outcome("return", z3.BoolVal(i is not None), s2))
+                else:
+                    if i is None:
+                        I.store(s2, args[0], Agg("hashset", None, tuple(hs.fields) + (deref_all(I, s2, args[1]) if isinstance(args[1], Ref) else args[1],)))
+                    outs.append(Outcome("return", z3.BoolVal(i is None), s2))
+            return outs
+    if re.match(r"^<HashSet<.*> as IntoIterator>::into_iter$", f):
+        hs = args[0]
+        return ret(st, mk_iter(Agg("vec", None, hs.fields), 0, "own"))
+    if re.match(r"^(std::boxed::)?Box::<.*>::new_uninit$", f):
+        I.frame_counter += 1
+        fr = I.frame_counter
+        st.mem[(fr, 0)] = None
+        return ret(st, Agg("adt", "Box", (Agg("adt", "Unique", (Ref(fr, 0, (), True),)),)))
+    if re.match(r"^(std::boxed::)?box_assume_init_into_vec_unsafe::<", f):
+        cell = args[0].fields[0].fields[0]
+        v = st.mem.get((cell.frame, cell.local))
+
+        def find_array(x):
+            if isinstance(x, Agg) and x.kind == "array":
+                return x
+            if isinstance(x, Agg):
+                for y in x.fields:
+                    r = find_array(y)
+                    if r is not None:
+                        return r
+            return None
+        arr = find_array(v)
+        if arr is None:
+            raise Unencodable("vec! lowering: array not found in the box")
+        return ret(st, Agg("vec", None, arr.fields))
+    m = re.match(r"^(Vec::<.*>|core::slice::<impl \[.*\]>)::contains$", f.replace("std::slice::<impl", "core::slice::<impl"))
+    if m:
+        seq, _ = seq_of(I, st, args[0])
+        x = deref_all(I, st, args[1])
+        if z3.is_expr(x):
+            return ret(st, z3.Or([deref_all(I, st, e) == x for e in seq.fields]) if seq.fields else z3.BoolVal(False))
+    m = re.match(r"^<(usize|u64|u32) as TryInto<(usize|u64|u128)>>::try_into$", f)
+    if m:
+        return ret(st, EnumV("Result", 0, {0: (args[0],)}))
+    m = re.match(r"^<Vec<(u64|usize|u8|u32)> as PartialEq>::(eq|ne)$", f)
+    if m:
+        a, _ = seq_of(I, st, args[0])
+        b, _ = seq_of(I, st, args[1])
+        r = z3.And([x == y for x, y in zip(a.fields, b.fields)]) if len(a.fields) == len(b.fields) and a.fields else z3.BoolVal(len(a.fields) == len(b.fields))
+        return ret(st, r if m.group(2) == "eq" else z3.Not(r))
     return None
